@@ -118,7 +118,7 @@ func (w *walker[F]) explore(s F, ref []int, script []string, d int) bool {
 // longNews: constructors with many arguments (allocation in chunks), explored to a small depth only
 func longNews() [][]int {
 	var out [][]int
-	for _, n := range []int{8, 15, 16, 17, 31, 32, 33, 64, 65, 100} {
+	for _, n := range []int{8, 15, 16, 17, 31, 32, 33, 64, 65, 100, 1025, 3000, 4097} {
 		xs := make([]int, n)
 		for i := range xs {
 			xs[i] = 1 + (i*7+i/3)%9
@@ -126,6 +126,14 @@ func longNews() [][]int {
 		out = append(out, xs)
 	}
 	return out
+}
+
+// brief prints a long argument list by its length and its first elements.
+func brief(xs []int) string {
+	if len(xs) <= 20 {
+		return fmt.Sprint(xs)
+	}
+	return fmt.Sprintf("%d elements %v...", len(xs), xs[:6])
 }
 
 func news() [][]int {
@@ -147,13 +155,33 @@ func news() [][]int {
 }
 
 func runImpl[F any](name string, tr seq.Seq[F, int], xs []int, depth int) drv.Result {
-	r := drv.Result{Case: fmt.Sprintf("%s New(%v) depth %d", name, xs, depth), Exhaustive: true}
+	r := drv.Result{Case: fmt.Sprintf("%s New(%s) depth %d", name, brief(xs), depth), Exhaustive: true}
 	w := &walker[F]{name: name, tr: tr, r: &r, states: map[string]bool{}, depth: depth}
 	arg := append([]int{}, xs...)
 	s := tr.New(arg...)
-	script := []string{fmt.Sprintf("New(%v)", xs)}
+	script := []string{fmt.Sprintf("New(%s)", brief(xs))}
 	if w.observe(s, xs, script, "right after New") {
 		w.explore(s, xs, script, 0)
+	}
+	if len(xs) > 1000 && len(r.Viols) == 0 {
+		// a fold that is slow on one early element: were the elements of a long sequence combined by several goroutines
+		// (chunk by chunk) and the partial results merged in completion order, the chunk holding that element would
+		// finish last. The verdict is the value, not the time.
+		slow := monoid.FromOp(7, func(a, b int) int {
+			if b == 999 {
+				time.Sleep(30 * time.Millisecond)
+				b = 9
+			}
+			return (a*10 + b) % 1000000007
+		})
+		ys := append([]int{}, xs...)
+		ys[2] = 999
+		zs := append([]int{}, ys...)
+		zs[2] = 9
+		r.Evaluations++
+		if f := (seq.Foldable[F, int]{Seq: tr}).Fold(slow, tr.New(ys...)); f != refFold(zs) {
+			w.viol("fold", []string{fmt.Sprintf("New(%d elements)", len(ys))}, "Fold over %d elements with a non-commutative operation that is slow on the third element = %d, the left fold gives %d", len(ys), f, refFold(zs))
+		}
 	}
 	r.States = len(w.states)
 	if len(xs) >= 1 {
@@ -173,6 +201,9 @@ func main() {
 		return 6
 	}
 	depth := func(tier string, xs []int) int {
+		if len(xs) > 1000 {
+			return 1
+		}
 		if len(xs) > 3 {
 			return 2
 		}
@@ -180,7 +211,7 @@ func main() {
 	}
 	drv.Main(drv.Property{
 		ID: "C19", Level: "model_checking", PanicIsViolation: true,
-		Rule:        "one case = (implementation list|slice, start New(xs) for every xs over {1,2,3} of length <= 3, plus ten long argument lists of 8..100 elements explored to depth 2); from it every script of Cons(1|2|3) / Tail of length <= 6 (8 in thorough) is executed on the real trait (a tree of values, no de-duplication, because hidden state such as slice capacity differs between paths); each produced value is observed (Length, IsEmpty, Head/Tail walk, Fold with the non-commutative operation a*10+b from empty 7) right after the operation, the argument is re-observed, and every value is re-observed after all its later siblings and descendants were built; states = distinct element lists reached, transitions = operations executed; both implementations are compared with the same []int reference, hence with each other",
+		Rule:        "one case = (implementation list|slice, start New(xs) for every xs over {1,2,3} of length <= 3, plus long argument lists of 8..100 elements explored to depth 2 and of 1025, 3000, 4097 elements explored to depth 1, also folded with an operation that is slow on one early element); from it every script of Cons(1|2|3) / Tail of length <= 6 (8 in thorough) is executed on the real trait (a tree of values, no de-duplication, because hidden state such as slice capacity differs between paths); each produced value is observed (Length, IsEmpty, Head/Tail walk, Fold with the non-commutative operation a*10+b from empty 7) right after the operation, the argument is re-observed, and every value is re-observed after all its later siblings and descendants were built; states = distinct element lists reached, transitions = operations executed; both implementations are compared with the same []int reference, hence with each other",
 		Assumptions: []string{"element values 1..3 stand for all values (the traits are parametric)", "New(xs...) aliasing its argument slice is outside the statement and not checked"},
 		Cases: func(string) (int, func(int) string) {
 			return 2 * len(starts), func(i int) string {
